@@ -26,6 +26,7 @@ Enabled(S, e) ==
     [] e.a = "ShareVec" -> DeadObjs(S) # {} /\ e.y \in S.usertup
     [] e.a = "DropTuple" -> e.y \in S.usertup
     [] e.a \in {"Drop", "ReadFpV", "Rename"} -> e.x \in LiveVec(S)
+    [] e.a = "ConcatEmpty" -> e.x \in LiveVec(S) /\ DeadObjs(S) # {}
     [] e.a = "Write" -> e.x \in LiveVec(S) /\ FreeSids(S) # {} /\ e.z \in 1..Len(Contents(S, e.x))
     [] e.a = "NewTable" -> /\ DeadTabs(S) # {} /\ ToSetOf(e.vs) \subseteq LiveVec(S) /\ Len(e.vs) >= 1
                            /\ Cardinality(FreeSids(S)) >= Len(e.vs) + 1 /\ Cardinality(DeadObjs(S)) >= Len(e.vs)
@@ -41,6 +42,7 @@ Apply(S, e) ==
     [] e.a = "DropTuple" -> DropTuple(S, e.y)
     [] e.a = "Copy"      -> CopyVec(S, e.x, OneSid(S))
     [] e.a = "Drop"      -> Drop(S, e.x)
+    [] e.a = "ConcatEmpty" -> ConcatEmpty(S, e.x)
     [] e.a = "Write"     -> WriteVec(S, e.x, e.z, e.w, OneSid(S))
     [] e.a = "ReadFpV"   -> ReadFpV(S, e.x)
     [] e.a = "NewTable"  -> NewTable(S, e.vs, KSids(S, Len(e.vs) + 1), KObjs(S, Len(e.vs)))
